@@ -417,6 +417,8 @@ func (p *streamPool) getOrOpenStream() (*Stream, error) {
 				return stream, nil
 			}
 		}
+		// the stream or its session was closed while pooled, release it instead of dropping it
+		stream.Close()
 	}
 
 	stream, err := p.Session().OpenStream()
